@@ -43,6 +43,7 @@ def run(ctx):
                    evaluations=n + ng, distinct_nontrivial=len(distinct) + ng,
                    rule="one evaluation = one constructor call (family x width x via x argument list) or one errored item taken through every gate; "
                         "distinct = distinct (family, width, via, Go types, forms, values)",
+                   samples=[common.short(json.loads(l), 400) for l in (open(obs).readline(),)] + [common.short(g["first"], 300) for g in list(groups.values())[:2]],
                    ctor_calls=n, by_family=fam, errored_item_cases=ng, exhaustive=False,
                    checker_cmd="vh c16; tlc OracleCtor")
     ctx.assumptions += ["a negative argument to an unsigned item, an integer beyond 2^53 to a float item and an out-of-range binary value may be "
